@@ -33,6 +33,9 @@ const (
 	pPD    = "github.com/goose-lang/primitive/disk"
 	pPAD   = "github.com/goose-lang/primitive/async_disk"
 	pGROVE = "github.com/mit-pdos/gokv/grove_ffi"
+	// builtin (never required) but not FFI; local stubs as well
+	pGOKVTIME = "github.com/mit-pdos/gokv/time"
+	pCFMUTEX  = "github.com/mit-pdos/vmvcc/cfmutex"
 )
 
 // specFfi: import path -> FFI selected (specification table).
@@ -57,8 +60,8 @@ var specBuiltin = map[string]bool{
 	pPD:                                           true,
 	pPAD:                                          true,
 	pGROVE:                                        true,
-	"github.com/mit-pdos/gokv/time":               true,
-	"github.com/mit-pdos/vmvcc/cfmutex":           true,
+	pGOKVTIME: true,
+	pCFMUTEX:  true,
 }
 
 var c08FfiShort = map[string]string{"md": pMD, "mad": pMAD, "pd": pPD, "pad": pPAD, "grove": pGROVE}
@@ -235,6 +238,10 @@ func (m *c08Module) source(p *c08Pkg, fi int) string {
 			terms = append(terms, "machine.RandomUint64()")
 		case "github.com/goose-lang/primitive":
 			terms = append(terms, "primitive.RandomUint64()")
+		case pGOKVTIME:
+			terms = append(terms, "time.Stamp()")
+		case pCFMUTEX:
+			terms = append(terms, "cfmutex.Mark()")
 		case "github.com/goose-lang/goose/machine/filesys":
 			stmts = append(stmts, `filesys.Delete("d", "f")`)
 		case "fmt":
@@ -271,6 +278,8 @@ func (m *c08Module) write(dir string) error {
 	files := map[string]string{}
 	// grove_ffi stub: an FFI package (by import path) that itself imports other FFI packages
 	files["stubs/gokv/grove_ffi/g.go"] = "package grove_ffi\n\nfunc G() uint64 {\n\treturn 7\n}\n"
+	files["stubs/gokv/time/t.go"] = "package time\n\nfunc Stamp() uint64 {\n\treturn 3\n}\n"
+	files["stubs/vmvcc/cfmutex/c.go"] = "package cfmutex\n\nfunc Mark() uint64 {\n\treturn 5\n}\n"
 	for i, h := range m.GroveHides {
 		use := path.Base(h) + ".BlockSize"
 		files[fmt.Sprintf("stubs/gokv/grove_ffi/h%d.go", i)] = fmt.Sprintf("package grove_ffi\n\nimport %q\n\nfunc H%d() uint64 {\n\treturn %s\n}\n", h, i, use)
@@ -280,7 +289,7 @@ func (m *c08Module) write(dir string) error {
 			files[fmt.Sprintf("%s/f%d.go", p.Dir, fi)] = m.source(p, fi)
 		}
 	}
-	return writeModule(dir, m.ModPath, []replaceDir{{Mod: "github.com/mit-pdos/gokv", Dir: "./stubs/gokv"}}, files)
+	return writeModule(dir, m.ModPath, []replaceDir{{Mod: "github.com/mit-pdos/gokv", Dir: "./stubs/gokv"}, {Mod: "github.com/mit-pdos/vmvcc", Dir: "./stubs/vmvcc"}}, files)
 }
 
 // generatedGraph is the import graph known by construction.
@@ -315,7 +324,8 @@ var c08Decor = [][]string{
 	{"lib/trusted_t1", "lib/zeta", "sync"},
 	{"in-ner/trusted_t2", "lib/alpha", "fmt", "log"},
 	{"lib/zeta", "in-ner/d.ot/plain", "lib/trusted_t1", "github.com/goose-lang/primitive"},
-	{"lib/mid_dle", "github.com/goose-lang/goose/machine/filesys"},
+	{"lib/mid_dle", "github.com/goose-lang/goose/machine/filesys", pGOKVTIME},
+	{pCFMUTEX, "lib/zeta", "lib/trusted_t1", "lib/alpha"},
 	{"in-ner/trusted_t2", "lib/trusted_t1", "lib/zeta", "lib/alpha", "lib/mid_dle"},
 }
 
@@ -479,9 +489,9 @@ func c08RandomModule(rng *core.Rng, k, n int) *c08Module {
 	if rng.Bool() {
 		m.GroveHides = []string{ffis[rng.Intn(4)]}
 	}
-	builtins := []string{"github.com/goose-lang/goose/machine", "github.com/goose-lang/primitive", "sync", "fmt", "log", "github.com/goose-lang/goose/machine/filesys"}
+	builtins := []string{"github.com/goose-lang/goose/machine", "github.com/goose-lang/primitive", "sync", "fmt", "log", "github.com/goose-lang/goose/machine/filesys", pGOKVTIME, pCFMUTEX}
 	// bias each module to one or two FFI names so that not everything is refused
-	fav := []string{ffis[rng.Intn(5)], ffis[rng.Intn(5)]}
+	fav := ffis[rng.Intn(5)]
 	var dirs []string
 	for i := 0; i < n; i++ {
 		dir := fmt.Sprintf("g%02d/n%03d", i%7, i)
@@ -503,10 +513,10 @@ func c08RandomModule(rng *core.Rng, k, n int) *c08Module {
 				files[g] = append(files[g], files[f][len(files[f])-1])
 			}
 		}
-		if rng.Chance(22) {
+		if rng.Chance(9) {
 			f := rng.Intn(nf)
-			if rng.Chance(80) {
-				files[f] = append(files[f], fav[rng.Intn(2)])
+			if rng.Chance(75) {
+				files[f] = append(files[f], fav)
 			} else {
 				files[f] = append(files[f], ffis[rng.Intn(5)])
 			}
